@@ -25,9 +25,11 @@ pub proof fn lemma_same_message_sum(sigs: Seq<Signature>, keys: Seq<PublicKey>, 
     ensures plain_sum(sigs, n) == fmul(h, keys_sum(keys, n))
     decreases n
 {
-    broadcast use ring;
     if n > 0 {
         lemma_same_message_sum(sigs, keys, h, n - 1);
+        lemma_distrib(h, keys_sum(keys, n - 1), keys[n - 1].0.dl());
+    } else {
+        lemma_mul_zero(h);
     }
 }
 
